@@ -311,7 +311,7 @@ def install_objects(E):
         'ThreadPoolExecutor', ctor=lambda E_, a, k: Obj('Executor', dict(workers=a[0] if a else NONE)))
     E.builtins[('import', 'itertools:islice')] = VStub('itertools.islice', lambda E_, a, k: Obj('islice', dict(it=a[0], n=a[1])))
     E.builtins[('import', 'sys')] = VNamespace('sys', dict(version_info=VTuple([VInt(3), VInt(12), VInt(1)])))
-    E.builtins[('import', 'queue')] = VNamespace('queue', dict(Queue=VClass('queue.Queue', ctor=lambda E_, a, k: Obj('TQueue'))))
+    E.builtins[('import', 'queue')] = VNamespace('queue', dict(Queue=VClass('queue.Queue', ctor=lambda E_, a, k: Obj('TQueue', dict(maxsize=k.get('maxsize', a[0] if a else VInt(0)))))))
 
 
 def _ev_write(E, ev, val):
